@@ -294,9 +294,47 @@ def file_index(t, g, y):
     return y + g + z3.If(z3.And(dn, y >= nyi), 2 * g, 0)
 
 
+def build_circular(env, limiter, guards):
+    """circular geometry (core-only periodic, or limiter with walls at both ends): real CircularEquilibrium.makeRegion with symbolic nx, ny"""
+    import hypnotoad.cases.circular as circ
+    eq = circ.CircularEquilibrium.__new__(circ.CircularEquilibrium)
+    settings = {"limiter": limiter, "y_boundary_guards": guards}
+    real = circ.CircularEquilibrium.user_options_factory.create(settings)
+    sym = {"nx": env.int("nx", lo=1), "ny": env.int("ny", lo=1)}
+    eq.user_options = real
+    eqm.Equilibrium.__init__(eq, {})
+    eq.user_options = OptProxy(real, sym)
+    eq.psi_r = lambda r: 1.0 + r
+
+    class NP:
+        def __getattr__(self, k):
+            return getattr(numpy, k)
+
+        def linspace(self, a, b, n=50, **kw):
+            if isinstance(n, SymInt):
+                return FakeVals("psi_vals")
+            return numpy.linspace(a, b, n, **kw)
+
+    from collections import OrderedDict
+    with patched((circ, "np", NP())), contextlib.redirect_stdout(io.StringIO()):
+        eq.regions = OrderedDict(circular=eq.makeRegion())
+        if not limiter:
+            eq.makeConnection("circular", 0, "circular", 0)
+        for r in eq.regions.values():
+            r.getRegridded = (lambda rr: (lambda **k: rr))(r)
+        with patched((meshm, "MeshRegion", StubRegion)):
+            mesh = meshm.BoutMesh(eq, settings)
+    fn, info = topo_slice()
+    t = fn(mesh, None)
+    return eq, mesh, t, sym
+
+
 def _mk(kind, guards, suo=False):
     def body(env):
-        eq, mesh, t, sym = build(env, kind, guards, suo)
+        if kind in ("circular_core", "circular_limiter"):
+            eq, mesh, t, sym = build_circular(env, kind == "circular_limiter", guards)
+        else:
+            eq, mesh, t, sym = build(env, kind, guards, suo)
         env.witness("descriptor_built")
         g = guards
         nx, ny, nyng = zi(mesh.nx), zi(mesh.ny), zi(mesh.ny_noguards)
@@ -356,11 +394,16 @@ def _mk(kind, guards, suo=False):
             lo_e = z3.IntVal(0) if lo is None else zi(lo)
             hi_e = ny if hi is None else zi(hi)
             masked = z3.Or(masked, z3.And(yf >= lo_e, yf < hi_e))
-        env.claim("chi_nan_mask_is_exactly_the_non_core_y_range", ZB(z3.Implies(z3.And(yf >= 0, yf < ny), masked == z3.Not(in_core))))
+        if any(reg.equilibriumRegion.kind == "X.X" for reg in mesh.regions.values()):
+            env.claim("chi_nan_mask_is_exactly_the_non_core_y_range", ZB(z3.Implies(z3.And(yf >= 0, yf < ny), masked == z3.Not(in_core))))
+        # (without a closed-field-line region ShiftAngle is NaN everywhere and chi = 2*pi*zShift/ShiftAngle is NaN without any mask)
         # (d) ordering
         j11, j21, j12, j22, nyi = [zi(t[k]) for k in ("jyseps1_1", "jyseps2_1", "jyseps1_2", "jyseps2_2", "ny_inner")]
         ix1, ix2 = zi(t["ixseps1"]), zi(t["ixseps2"])
-        if kind in ("lsn", "usn"):
+        if kind in ("circular_core", "circular_limiter"):
+            env.claim("topology_indices_in_range", ZB(z3.And(j11 >= -1, j11 <= j21, j21 <= j12, j12 <= j22, j22 <= nyng - 1)))
+            env.claim("ixseps_core_only_or_sol_only", ZB(z3.And(ix1 == ix2, (ix1 == nx) if kind == "circular_core" else (ix1 <= 0))))
+        elif kind in ("lsn", "usn"):
             env.claim("ordering_single_null", ZB(z3.And(j11 >= -1, j11 < j21, j21 == j12, j12 <= j22, j22 <= nyng - 1)))
             env.claim("ixseps_single_null", ZB(z3.And(ix1 >= 1, ix1 < nx, ix2 == nx)))
         else:
@@ -396,3 +439,12 @@ for _kind in ("lsn", "usn", "cdn", "ldn", "udn"):
                 desc="tiling, symmetric equal-size connections, BOUT++ decoding of ixseps/jyseps/ny_inner == hypnotoad adjacency, index ordering",
                 encodes=ENC, stubs=["findLegs", "coreRegionToRegion", "segmentsWithPsivals", "MeshRegion -> record", "getRegridded -> identity"],
                 bounds="all sizes >= 1 symbolic (unbounded), y_boundary_guards=%d" % _g))
+
+for _kind in ("circular_core", "circular_limiter"):
+    for _g in (0, 2):
+        if _kind == "circular_core" and _g:
+            continue  # a core-only grid has no targets, hence no guard cells in the arrays; how BOUT++ reads y_boundary_guards>0 there is not modelled
+        OBLIGATIONS.append(Ob("topology_%s_guards%d" % (_kind, _g), _mk(_kind, _g), tier="quick", family="topology:" + _kind,
+                              desc="circular geometry: tiling, connections, BOUT++ decoding of the written integers == hypnotoad adjacency (periodic core / limiter targets), index ranges, chi mask",
+                              encodes=["hypnotoad.cases.circular:CircularEquilibrium.makeRegion"] + ENC[3:], stubs=["psi_r", "MeshRegion -> record", "psi_vals -> placeholder"],
+                              bounds="nx, ny >= 1 symbolic, y_boundary_guards=%d" % _g))
